@@ -41,8 +41,11 @@ class CallMixin:
                 kwargs = {}
                 for k, v in zip(n.keywords, vs[len(n.args):]):
                     if k.arg is None:
-                        raise Unsupported('**kwargs call')
-                    kwargs[k.arg] = v
+                        if v.ty != 'kwargs':
+                            raise Unsupported('** of ' + v.ty)
+                        kwargs.update(v.a['items'])
+                    else:
+                        kwargs[k.arg] = v
                 outs += self.call_value(fv, args, kwargs, s, n)
         return outs
 
@@ -76,10 +79,21 @@ class CallMixin:
                 raise Unsupported('call of abstract callback ' + a['abstract'])
             if 'wrapper' in a:
                 return a['wrapper'](self, args, kwargs, st, node)
+            if 'builtinmethod' in a:
+                base, meth = a['builtinmethod']
+                for h in self.reg.attr_hooks:
+                    r = h(self, 'builtinmethod', (base, meth, a['bound'], args, kwargs), st)
+                    if r is not None:
+                        return r
+                if base == 'builtins.object' and meth == '__init__':
+                    return [('val', st, VNone)]
+                raise Unsupported('%s.%s on %s' % (base, meth, a['bound'].ty))
         if t == 'cls':
             return self.construct(fv.a['name'], args, kwargs, st, node)
         if t == 'exc':
             return [('val', st, Val('excinst', None, name=fv.a['name']))]
+        if t == 'obj':
+            return self.call_method_val(fv, '__call__', args, kwargs, st, node)
         raise Unsupported('call of a %s value' % t)
 
     # ------------------------------------------------------------------ repository functions
@@ -110,7 +124,8 @@ class CallMixin:
         if v.ty == 'obj':
             q = self.repo.resolve_method(v.a['cls'], '__str__')
             if q is None:
-                raise Unsupported('str() of %s (address-dependent)' % v.a['cls'])
+                # object.__str__: the text contains the object's address (frame scan F5 lists these sites)
+                return [('val', st, VS(fresh('addr_repr', Str)))]
             return self.call_function(q, [v], {}, st, None)
         return [('val', st, VS(ops.to_str(v)))]
 
@@ -132,7 +147,7 @@ class CallMixin:
                 if view is not None:
                     obj.a['view'] = view.short
                     for f, fty in view.fields.items():
-                        st.set_field(obj, f, self.fresh_val(fty, f, st))
+                        st.set_field(obj, f, Val('unset', None, fty=fty))     # instance attribute not assigned yet
                 outs = []
                 for o in self.call_function(q, [obj] + args, kwargs, st, node):
                     outs.append(o if o[0] == 'raise' else ('val', o[1], obj))
@@ -179,12 +194,10 @@ class CallMixin:
 
     def inline_def(self, fv, args, kwargs, st):
         node = fv.a['defnode']
-        params = [x.arg for x in node.args.args]
-        if len(params) != len(args) or kwargs:
-            raise Unsupported('nested def arity')
+        binding = self.bind_args(None, args, kwargs, st, node=node, name=node.name)
         saved = st.env
         st.env = dict(fv.a['env'])
-        st.env.update(zip(params, args))
+        st.env.update(binding)
         outs = []
         for o in self.block(node.body, st):
             o[1].env = dict(saved)
@@ -212,7 +225,7 @@ class CallMixin:
         if name == 'isinstance':
             return self.isinstance_(args[0], args[1], st)
         if name == 'bool':
-            return [('val', st, VB(simplify(ops.truth(args[0]))))]
+            return [('val', st, VB(simplify(self.truth_of(args[0], st))))]
         if name == 'str':
             return self.call_str(args[0], st)
         if name == 'next':
@@ -388,8 +401,7 @@ class CallMixin:
         if name in ('strip', 'lstrip', 'rstrip'):
             if args or kwargs:
                 raise Unsupported('strip with arguments')
-            f = {'strip': ops.str_strip, 'lstrip': ops.str_lstrip, 'rstrip': ops.str_rstrip}[name]
-            return [('val', st, VS(f(s)))]
+            return [('val', st, VS(ops.strip_z(s, name)))]
         if name == 'find':
             return [('val', st, VI(IndexOf(s, strz(args[0]), 0)))]
         if name == 'join':
@@ -420,7 +432,11 @@ class CallMixin:
         if recv.ty == 'seq':
             el = recv.a['elem']
             if name == 'append':
-                store(VSeq(Concat(recv.z, Unit(elem_z(args[0], el))), el))
+                xz = elem_z(args[0], el)
+                new = Concat(recv.z, Unit(xz))
+                store(VSeq(new, el))
+                for h in self.reg.attr_hooks:
+                    h(self, 'appended', (recv.z, xz, new, el), st)
                 return [('val', st, VNone)]
             if name == 'extend':
                 v = args[0]
@@ -433,6 +449,14 @@ class CallMixin:
                         z = Concat(z, Unit(elem_z(x, el)))
                     store(VSeq(z, el))
                     return [('val', st, VNone)]
+        if recv.ty == 'hlist' and name == 'append':
+            t = recv.a['tail']
+            xz = elem_z(args[0], recv.a['elem'])
+            new = Concat(t.z, Unit(xz))
+            store(Val('hlist', None, prefix=recv.a['prefix'], elem=recv.a['elem'], tail=VSeq(new, recv.a['elem'])))
+            for h in self.reg.attr_hooks:
+                h(self, 'appended', (t.z, xz, new, recv.a['elem']), st)
+            return [('val', st, VNone)]
         if recv.ty == 'list':
             items = recv.a['items']
             if name == 'append':
